@@ -12,6 +12,7 @@ import (
 	"strings"
 
 	"golang.org/x/tools/go/packages"
+	"golang.org/x/tools/go/ssa"
 
 	"vischeck/internal/core"
 )
@@ -402,3 +403,289 @@ func eqDisjunction(e ast.Expr, info *types.Info) ([]string, bool) {
 }
 
 var _ = strings.Join
+
+// checkResultFlagOrder (C06 R11): external code answers with two lists, flags to reset and flags to
+// set. The library applies the resets first and the sets second, so a flag named in both ends up
+// set - the "clear the group, raise one" idiom the repository's own examples use
+// (examples/preprocessor), and the only way a handler can both wipe its writable flags and raise
+// TERMINATE. The order is visible in the shape of the code: in no library function is a consuming
+// read of Result.FlagReset reachable from a consuming read of Result.FlagSet. A read that only
+// feeds a logging call (boxed into an interface) is not a consumer.
+func checkResultFlagOrder(w *core.World, r *core.Report, rule string) {
+	n := 0
+	for _, fn := range w.LibFuncs {
+		var sets, resets []ssa.Instruction
+		for _, in := range allInstrs(fn) {
+			v, ok := in.(ssa.Value)
+			if !ok {
+				continue
+			}
+			tn, f, ok := core.LoadedField(v)
+			if !ok || tn != "resource.Result" {
+				continue
+			}
+			if !consumedValue(v) {
+				continue
+			}
+			switch f {
+			case "FlagSet":
+				sets = append(sets, in)
+			case "FlagReset":
+				resets = append(resets, in)
+			}
+		}
+		if len(sets) == 0 || len(resets) == 0 {
+			continue
+		}
+		n++
+		r.Touch(core.QName(fn))
+		bad := ""
+		var badPos token.Pos
+		for _, s := range sets {
+			isReset := func(in ssa.Instruction) bool {
+				for _, x := range resets {
+					if x == in {
+						return true
+					}
+				}
+				return false
+			}
+			if hit, _ := core.Reach(core.After(s), isReset, nil); hit != nil {
+				bad = fmt.Sprintf("the reset list is read at %s after the set list was read at %s", w.Pos(hit.Pos()), w.Pos(s.Pos()))
+				badPos = hit.Pos()
+			}
+		}
+		r.Check(bad == "", rule, core.QName(fn)+": result flags, resets before sets", badPos, fmt.Sprintf("%d read(s) of FlagReset, none reachable from the %d read(s) of FlagSet", len(resets), len(sets)),
+			"the flags external code asks to set are applied before the ones it asks to reset: a flag named in both lists ends up cleared - a handler that wipes its writable flags and raises one (or TERMINATE) loses it, the CATCH on it does not move and a session that should be blocked keeps running: "+bad)
+	}
+	r.Floor(rule, "library functions applying both result flag lists", n, 1)
+}
+
+// consumedValue: the value is used by something other than a conversion to an interface (logging).
+func consumedValue(v ssa.Value) bool {
+	refs := v.Referrers()
+	if refs == nil {
+		return false
+	}
+	for _, u := range *refs {
+		switch u.(type) {
+		case *ssa.MakeInterface, *ssa.DebugRef:
+			continue
+		}
+		return true
+	}
+	return false
+}
+
+// checkPendingCodeConsumed (C06 R12, C20 R11): the engine fetches the pending bytecode of a session
+// with State.GetCode before it runs the VM and records new code only after a run that neither
+// failed nor left TERMINATE set. "CROAK abandons the pending bytecode" and "a terminated session
+// stays blocked and restarts cleanly" therefore depend on the fetch being a consuming read: the
+// lines fetched must not stay in the state that is saved on the early returns. Decided
+// structurally: at every call of State.GetCode in the library, State.Code is stored again before
+// the calling function returns, on every path - either GetCode itself stores the field on every
+// path to its returns, or every path from the call to a return of the caller passes a store to
+// the field (directly or through a function of package state that stores it).
+func checkPendingCodeConsumed(w *core.World, r *core.Report, rule string) {
+	gc := w.Func("state", "(*State).GetCode")
+	if gc == nil {
+		r.Undecided(rule, "state.(*State).GetCode", token.NoPos, "anchor not found")
+		return
+	}
+	r.Touch(core.QName(gc))
+	isCodeStore := func(in ssa.Instruction) bool {
+		if st, ok := in.(*ssa.Store); ok {
+			if tn, f, ok := core.FieldOfAddr(st.Addr); ok && tn == "state.State" && f == "Code" {
+				return true
+			}
+		}
+		if c, ok := in.(ssa.CallInstruction); ok {
+			if g := core.StaticCallee(c); g != nil && g != gc && core.PkgOf(g) == "state" {
+				for _, gi := range allInstrs(g) {
+					if st, ok := gi.(*ssa.Store); ok {
+						if tn, f, ok := core.FieldOfAddr(st.Addr); ok && tn == "state.State" && f == "Code" {
+							return true
+						}
+					}
+				}
+			}
+		}
+		return false
+	}
+	cutOf := func(fn *ssa.Function) *core.Cut {
+		cut := core.NewCut()
+		for _, in := range allInstrs(fn) {
+			if isCodeStore(in) {
+				cut.AddInstr(in)
+			}
+		}
+		return cut
+	}
+	self, _ := core.Reach(core.Entry(gc), core.IsReturn, cutOf(gc))
+	consuming := self == nil
+	n := 0
+	for _, fn := range w.LibFuncs {
+		for _, c := range core.CallsTo(fn, "state.(*State).GetCode") {
+			n++
+			r.Touch(core.QName(fn))
+			desc := fmt.Sprintf("%s: pending code fetched with State.GetCode", core.QName(fn))
+			if n > 1 {
+				desc = fmt.Sprintf("%s #%d", desc, n)
+			}
+			if consuming {
+				r.OK(rule, desc, c.Pos(), "GetCode stores State.Code on every path to its returns (a consuming read)")
+				continue
+			}
+			hit, path := core.Reach(core.After(c.(ssa.Instruction)), core.IsReturn, cutOf(fn))
+			witness := ""
+			if hit != nil {
+				witness = "return at " + w.Pos(hit.Pos()) + " via " + w.PathString(path)
+			}
+			r.Check(hit == nil, rule, desc, c.Pos(), "every path from the fetch to a return stores State.Code again",
+				"the fetch leaves the pending code in the state and a return of the caller is reached without storing State.Code: the lines of the node the session was thrown out of survive a failed or terminated run, are saved, and take the next input once the block is lifted - the pending bytecode is not abandoned", witness)
+		}
+	}
+	r.Floor(rule, "State.GetCode call sites", n, 1)
+}
+
+// checkListingStateReinitialised (C10 R14): the filesystem listing keeps its progress on the store
+// handle (the directory cursor, the prefix to match, and whatever else the listing functions store
+// there). A listing must not depend on how the previous one on the same handle ended - a dumper
+// that was not drained, a read that failed half-way. Decided structurally: the listing family is
+// every function of package db/fs that reads or writes the cursor field, plus the package functions
+// they call; the listing state is every field of the handle that a family function stores; and in
+// Dump every such field is stored on every path from the entry to the first read of it (in Dump or
+// in a family function Dump calls) and to every return that hands out a dumper.
+func checkListingStateReinitialised(w *core.World, r *core.Report, rule string) {
+	const handle = "db/fs.fsDb"
+	dump := w.Func("db/fs", "(*fsDb).Dump")
+	if dump == nil {
+		r.Undecided(rule, "db/fs Dump", token.NoPos, "anchor not found")
+		return
+	}
+	fieldOf := func(in ssa.Instruction) (string, bool, bool) { // field, isStore, ok
+		switch t := in.(type) {
+		case *ssa.Store:
+			if tn, f, ok := core.FieldOfAddr(t.Addr); ok && tn == handle {
+				return f, true, true
+			}
+		case *ssa.UnOp:
+			if t.Op == token.MUL {
+				if tn, f, ok := core.FieldOfAddr(t.X); ok && tn == handle {
+					return f, false, true
+				}
+			}
+		}
+		return "", false, false
+	}
+	// cursor field: the handle's field of a slice-of-DirEntry type
+	cursor := ""
+	if tn := w.Type("db/fs", "fsDb"); tn != nil {
+		if st, ok := tn.Type().Underlying().(*types.Struct); ok {
+			for i := 0; i < st.NumFields(); i++ {
+				if sl, ok := st.Field(i).Type().Underlying().(*types.Slice); ok && strings.HasSuffix(sl.Elem().String(), "DirEntry") {
+					cursor = st.Field(i).Name()
+				}
+			}
+		}
+	}
+	if cursor == "" {
+		r.Undecided(rule, "db/fs listing cursor", dump.Pos(), "the handle has no field of directory entries")
+		return
+	}
+	family := map[*ssa.Function]bool{}
+	for _, fn := range w.FuncsIn("db/fs") {
+		for _, in := range allInstrs(fn) {
+			if f, _, ok := fieldOf(in); ok && f == cursor {
+				family[fn] = true
+			}
+		}
+	}
+	// package callees of the family (helpers), excluding the map operations Get/Put which have their own rules
+	for changed := true; changed; {
+		changed = false
+		for fn := range family {
+			for _, c := range core.Calls(fn) {
+				g := core.StaticCallee(c)
+				if g == nil || family[g] || core.PkgOf(g) != "db/fs" || len(g.Blocks) == 0 {
+					continue
+				}
+				switch g.Name() {
+				case "Get", "Put", "Connect", "Close":
+					continue
+				}
+				family[g] = true
+				changed = true
+			}
+		}
+	}
+	reads := map[*ssa.Function]map[string]bool{}
+	state := map[string]bool{}
+	for fn := range family {
+		reads[fn] = map[string]bool{}
+		for _, in := range allInstrs(fn) {
+			if f, isStore, ok := fieldOf(in); ok {
+				if isStore {
+					state[f] = true
+				} else {
+					reads[fn][f] = true
+				}
+			}
+		}
+	}
+	// transitive reads through family calls
+	for changed := true; changed; {
+		changed = false
+		for fn := range family {
+			for _, c := range core.Calls(fn) {
+				if g := core.StaticCallee(c); g != nil && family[g] && g != fn {
+					for f := range reads[g] {
+						if !reads[fn][f] {
+							reads[fn][f] = true
+							changed = true
+						}
+					}
+				}
+			}
+		}
+	}
+	var fields []string
+	for f := range state {
+		fields = append(fields, f)
+	}
+	sort.Strings(fields)
+	r.Touch(core.QName(dump))
+	for _, f := range fields {
+		cut := core.NewCut()
+		for _, in := range allInstrs(dump) {
+			if ff, isStore, ok := fieldOf(in); ok && isStore && ff == f {
+				cut.AddInstr(in)
+			}
+		}
+		target := func(in ssa.Instruction) bool {
+			if ff, isStore, ok := fieldOf(in); ok && !isStore && ff == f {
+				return true
+			}
+			if c, ok := in.(ssa.CallInstruction); ok {
+				if g := core.StaticCallee(c); g != nil && family[g] && reads[g][f] {
+					return true
+				}
+			}
+			if ret, ok := in.(*ssa.Return); ok && len(ret.Results) > 0 {
+				v := core.ReturnValue(ret, 0)
+				return v != nil && !core.IsNilConst(v)
+			}
+			return false
+		}
+		hit, path := core.Reach(core.Entry(dump), target, cut)
+		witness := ""
+		var pos token.Pos
+		if hit != nil {
+			pos = hit.Pos()
+			witness = "reached at " + w.Pos(hit.Pos()) + " via " + w.PathString(path)
+		}
+		r.Check(hit == nil, rule, "db/fs Dump: listing state "+f+" re-initialised", pos, "stored on every path before it is read or a dumper is handed out",
+			"a listing starts with what the previous listing on this handle left in "+handle+"."+f+": after a dumper that was not drained (or a read that failed half-way) the next listing skips or stops before keys that are stored", witness)
+	}
+	r.Floor(rule, "listing state fields", len(fields), 2)
+}
